@@ -60,7 +60,7 @@ def c04(raw, outp):
             base = {k: r[k] for k in ("row", "q", "nc", "m", "es", "pred", "builtin", "expert", "explicit", "eok", "dok", "skipok", "type")}
             base["other_skip_ok"] = r.get("other_skip_ok", True)
             base["e"] = "Quant"
-            rec = dict(base, n=0, half_u=0, allow_u=0, worst_err_u=0, worst_box_u=0, nonfinite=0, bits_ok=True, k_far=0, tiny_range=False, sample=[], other_skip_same=True)
+            rec = dict(base, n=0, half_u=0, allow_u=0, worst_err_u=0, worst_box_u=0, nonfinite=0, bits_ok=True, k_far=0, tiny_range=False, sample=[], other_skip_same=True, worst_desc_u=0)
             if not (r["eok"] and r["dok"]):
                 out.write(json.dumps(rec) + "\n"); n_rows += 1
                 continue
@@ -118,6 +118,18 @@ def c04(raw, outp):
                         if abs(r["k"][i][c] - kx) > 1:
                             rec["k_far"] += 1
             rec["worst_err_u"], rec["worst_box_u"] = worst_err, worst_box
+            # the skip-transform view: the integers handed out, dequantised EXACTLY with the parameters the attribute describes itself with
+            # (min + k * range / (2^bits - 1)), are the decoded values in rational arithmetic -- the same half-step bound applies to them
+            worst_desc = 0
+            if smin and srange is not None and r["k"] and r["bits"] and r["bits"] > 0:
+                maxq_s = 2 ** r["bits"] - 1
+                for i, p in enumerate(xs):
+                    if i >= len(r["k"]) or len(r["k"][i]) < nc:
+                        continue
+                    for c in range(nc):
+                        dv = smin[c] + Fraction(r["k"][i][c]) * srange / maxq_s
+                        worst_desc = max(worst_desc, floor_u(abs(dv - p[c]), unit))
+            rec["worst_desc_u"] = worst_desc
             out.write(json.dumps(rec) + "\n"); n_rows += 1
     return n_rows
 
